@@ -18,6 +18,9 @@ structure LowEq (fn : Fun) (e1 e2 : Env) : Prop where
   pub : ∀ k, rd e1.pub k = rd e2.pub k
   st : e1.st = e2.st
   rv : fn.retPub = true → e1.rv = e2.rv
+  ora : e1.ora = e2.ora
+
+theorem rd_empty (k : Nat) : rd (∅ : Store) k = 0 := by simp [rd]
 
 theorem loadN_congr (m1 m2 : Store) (h : ∀ k, rd m1 k = rd m2 k) (a n : Nat) :
     loadN m1 a n = loadN m2 a n := by
@@ -203,7 +206,7 @@ theorem exec_ni (P : Prog) (strict : Bool) (hP : ctProg P strict = true) :
   induction fuel with
   | zero =>
     intro fn s _ e1 e2 h
-    exact ⟨rfl, ⟨h.vars, h.pub, rfl, h.rv⟩⟩
+    exact ⟨rfl, ⟨h.vars, h.pub, rfl, h.rv, h.ora⟩⟩
   | succ f ih =>
     intro fn s hs e1 e2 h
     cases s with
@@ -213,7 +216,7 @@ theorem exec_ni (P : Prog) (strict : Bool) (hP : ctProg P strict = true) :
       have ha := evalE_ni strict fn.L e1 e2 h.vars h.pub a hs.1
       refine ⟨by simpa [exec] using ha.1, ?_⟩
       simp only [exec, Env.setVar]
-      refine ⟨?_, h.pub, h.st, h.rv⟩
+      refine ⟨?_, h.pub, h.st, h.rv, h.ora⟩
       intro y hy
       simp only [rd_wr]
       by_cases hxy : x = y
@@ -237,11 +240,11 @@ theorem exec_ni (P : Prog) (strict : Bool) (hP : ctProg P strict = true) :
       · cases p with
         | false =>
           simp only [exec]
-          exact ⟨h.vars, h.pub, h.st, h.rv⟩
+          exact ⟨h.vars, h.pub, h.st, h.rv, h.ora⟩
         | true =>
           have hl : lab fn.L a = false ∧ lab fn.L v = false := by simpa using hpp
           simp only [exec, if_true]
-          refine ⟨h.vars, ?_, h.st, h.rv⟩
+          refine ⟨h.vars, ?_, h.st, h.rv, h.ora⟩
           rw [ha.2 hl.1, hv.2 hl.2]
           exact storeN_congr _ _ _ h.pub _ _
     | seq a b =>
@@ -279,11 +282,11 @@ theorem exec_ni (P : Prog) (strict : Bool) (hP : ctProg P strict = true) :
         · have h1 := ih fn body hbody _ _ h0.2
           rw [← h1.2.st, ← h1.1]
           split
-          · exact ⟨rfl, ⟨h1.2.vars, h1.2.pub, rfl, h1.2.rv⟩⟩
+          · exact ⟨rfl, ⟨h1.2.vars, h1.2.pub, rfl, h1.2.rv, h1.2.ora⟩⟩
           · split
             · have hz : LowEq fn { (exec P strict f body (exec P strict f pre e1).1).1 with st := 0 }
                   { (exec P strict f body (exec P strict f pre e2).1).1 with st := 0 } :=
-                ⟨h1.2.vars, h1.2.pub, rfl, h1.2.rv⟩
+                ⟨h1.2.vars, h1.2.pub, rfl, h1.2.rv, h1.2.ora⟩
               have h2 := ih fn step hstep _ _ hz
               rw [← h2.2.st, ← h2.1]
               split
@@ -297,13 +300,13 @@ theorem exec_ni (P : Prog) (strict : Bool) (hP : ctProg P strict = true) :
       have ha := evalE_ni strict fn.L e1 e2 h.vars h.pub a hs.1
       refine ⟨by simpa [exec] using ha.1, ?_⟩
       simp only [exec]
-      refine ⟨h.vars, h.pub, rfl, ?_⟩
+      refine ⟨h.vars, h.pub, rfl, ?_, h.ora⟩
       intro hr
       rcases hs.2 with hh | hh
       · rw [hh] at hr; cases hr
       · exact ha.2 hh
-    | brk => exact ⟨rfl, ⟨h.vars, h.pub, rfl, h.rv⟩⟩
-    | cont => exact ⟨rfl, ⟨h.vars, h.pub, rfl, h.rv⟩⟩
+    | brk => exact ⟨rfl, ⟨h.vars, h.pub, rfl, h.rv, h.ora⟩⟩
+    | cont => exact ⟨rfl, ⟨h.vars, h.pub, rfl, h.rv, h.ora⟩⟩
     | call dst g args =>
       simp only [ctS] at hs
       simp only [exec]
@@ -317,20 +320,20 @@ theorem exec_ni (P : Prog) (strict : Bool) (hP : ctProg P strict = true) :
           simpa [ctFun] using this
         have htr := evalArgs_trace strict fn.L e1 e2 h.vars h.pub cal args 0 hs.1
         have hfr : LowEq cal
-            { vars := bindArgs 0 (evalArgs strict e1 args).1 ∅, sec := e1.sec, pub := e1.pub, st := 0, rv := 0 }
-            { vars := bindArgs 0 (evalArgs strict e2 args).1 ∅, sec := e2.sec, pub := e2.pub, st := 0, rv := 0 } := by
-          refine ⟨?_, h.pub, rfl, fun _ => rfl⟩
+            { vars := bindArgs 0 (evalArgs strict e1 args).1 ∅, sec := e1.sec, pub := e1.pub, st := 0, rv := 0, ora := e1.ora }
+            { vars := bindArgs 0 (evalArgs strict e2 args).1 ∅, sec := e2.sec, pub := e2.pub, st := 0, rv := 0, ora := e2.ora } := by
+          refine ⟨?_, h.pub, rfl, fun _ => rfl, h.ora⟩
           exact bindArgs_loweq strict fn.L e1 e2 h.vars h.pub cal args 0 ∅ ∅ hs.1 (fun _ _ => rfl)
         have hr := ih cal cal.body hcal _ _ hfr
         refine ⟨by simp only [htr, hr.1], ?_⟩
         cases dst with
         | none =>
           simp only
-          refine ⟨h.vars, hr.2.pub, ?_, h.rv⟩
+          refine ⟨h.vars, hr.2.pub, ?_, h.rv, hr.2.ora⟩
           simp only [hr.2.st]
         | some x =>
           simp only [Env.setVar]
-          refine ⟨?_, hr.2.pub, ?_, h.rv⟩
+          refine ⟨?_, hr.2.pub, ?_, h.rv, hr.2.ora⟩
           · intro y hy
             simp only [rd_wr]
             by_cases hxy : x = y
@@ -345,10 +348,20 @@ theorem exec_ni (P : Prog) (strict : Bool) (hP : ctProg P strict = true) :
               exact hr.2.rv this
             · simp [hxy, h.vars y hy]
           · simp only [hr.2.st]
-    | ext g args =>
+    | ext dst g args =>
       simp only [ctS, Bool.and_eq_true] at hs
       have htr := evalExt_trace strict fn.L e1 e2 h.vars h.pub args hs.2
-      exact ⟨by simp [exec, htr], h⟩
+      refine ⟨by simp [exec, htr], ?_⟩
+      cases dst with
+      | none => exact h
+      | some x =>
+        simp only [exec]
+        refine ⟨?_, h.pub, h.st, h.rv, by rw [h.ora]⟩
+        intro y hy
+        simp only [rd_wr, h.ora]
+        by_cases hxy : x = y
+        · simp [hxy]
+        · simp [hxy, h.vars y hy]
 
 /-- **Trace non-interference of a checked function**: the executed branches (and accessed
 addresses) of `fn.body` are the same for any two inputs that agree on `fn`'s public variables
@@ -360,5 +373,28 @@ theorem fun_trace_ni (P : Prog) (strict : Bool) (hP : ctProg P strict = true)
     have := List.all_eq_true.mp hP fn hfn
     simpa [ctFun] using this
   exact (exec_ni P strict hP fuel fn fn.body hc e1 e2 h).1
+
+/-! two small programs used by the non-vacuity theorems of Props.lean -/
+
+/-- `for (i = 0; i < n; ++i) if (a[i] != b[i]) return 0; return 1` (0=a 1=b 2=n public, 3=i) -/
+def exEarlyExit : Prog :=
+  { funs := [{ nparams := 3, pubv := [0, 1, 2, 3], retPub := false,
+               body :=
+                .seq (.assign 3 (.const 0))
+                  (.seq (.loop .skip (.bin .lt ⟨64, false⟩ (.var 3) (.var 2))
+                    (.ite (.bin .ne ⟨64, false⟩
+                        (.load false 8 (.bin .add ⟨64, false⟩ (.var 0) (.bin .mul ⟨64, false⟩ (.var 3) (.const 8))))
+                        (.load false 8 (.bin .add ⟨64, false⟩ (.var 1) (.bin .mul ⟨64, false⟩ (.var 3) (.const 8)))))
+                      (.ret (.const 0)) .skip)
+                    (.assign 3 (.bin .add ⟨64, false⟩ (.var 3) (.const 1))))
+                  (.ret (.const 1))) }],
+    allowExt := [] }
+
+/-- `return memcmp(a, b, n) == 0` with memcmp = external routine 7, not on the allow-list -/
+def exUnknownCallee : Prog :=
+  { funs := [{ nparams := 3, pubv := [0, 1, 2], retPub := false,
+               body := .seq (.ext (some 3) 7 [.var 0, .var 1, .var 2])
+                        (.ret (.bin .eq ⟨32, true⟩ (.var 3) (.const 0))) }],
+    allowExt := [0, 1] }
 
 end Bee2V.C14.IR
